@@ -121,6 +121,10 @@ def enumerate_specs(tier):
                     setup = "frozen"
                 elif (hi + fi) % 5 == 3:
                     setup = "unreached"
+                elif (hi + fi) % 5 == 2:
+                    setup = "two"
+                elif (hi + fi) % 5 == 4 and h.count("b") >= 2:
+                    setup = "late"
                 specs.append({"opt": opt, "flags": fl, "history": h, "setup": setup})
     for fl in SGD_FLAGS:
         for state in (("fresh", "buffer") if fl["momentum"] != 0 else ("fresh",)):
@@ -179,13 +183,15 @@ class Case:
             cls = optim.Adam if sp["opt"] == "Adam" else optim.AdamW
             opt = cls(params, lr=h["lr"], betas=(h["beta1"], h["beta2"]), eps=h["eps"], weight_decay=h["weight_decay"],
                       maximize=h["maximize"])
-        reached = [True] + ([sp["setup"] != "unreached" and sp["setup"] != "frozen"] if len(shapes) > 1 else [])
+        # two: both parameters receive (different) gradients in every backward; late: the second one only from the second
+        # backward on, so its per-parameter state (momentum buffer, moments, step count) starts a step later
+        reached = [True] + ([sp["setup"] in ("two", "late")] if len(shapes) > 1 else [])
         nb = 0
         for step_i, act in enumerate(sp["history"]):
             if act == "b":
                 loss = None
                 for i, (p, r) in enumerate(zip(params, refs)):
-                    if not reached[i] or not r.requires_grad:
+                    if not reached[i] or not r.requires_grad or (sp["setup"] == "late" and i == 1 and nb == 0):
                         continue
                     c = env.arr("c%d_%d" % (nb, i), p.shape, lo=-2, hi=2)
                     term = (p * Tn(c)).sum()
@@ -390,7 +396,7 @@ def main(tier, seed):
         bounds={"inductive_step": "one step from an arbitrary symbolic state: SGD momentum buffer present/absent; Adam/AdamW moment "
                                   "estimates arbitrary (second moment >= 0) with 0-2 (quick) / 0-5 (thorough) previous updates",
                 "history_length": "<= 4 with <= 2 steps (quick) / <= 6 with <= 3 steps (thorough), ending in a step",
-                "parameters": "one (2,) parameter, or (2,)+(1,2) with the second frozen / never reached by backward",
+                "parameters": "one (2,) parameter, or (2,)+(1,2) with the second frozen / never reached by backward / reached like the first / reached from the second backward on",
                 "flag sets": {"SGD": len(SGD_FLAGS), "Adam": len(ADAM_FLAGS), "AdamW": len(ADAM_FLAGS)}},
         assumptions=["floats are reals", "hyper-parameters range over lr>0, momentum/dampening/weight_decay/betas in (0,1), "
                      "eps>0 (symbolic) or are exactly 0 (enumerated)",
